@@ -13,7 +13,7 @@ from hypothesis import strategies as st
 
 from parso import cache as pcache
 
-from ..common import scratch_dir, crash_signature, digest, first_tree_diff, grammar, short
+from ..common import parent_link_error, scratch_dir, crash_signature, digest, first_tree_diff, grammar, short
 from ..engine import Outcome, Prop
 from ..gen import text as T
 
@@ -195,7 +195,7 @@ def oracle_after_fault(w, call=None):
         sig, det = crash_signature(e)
         return ('parse-raises-' + sig, det)
     try:
-        d = first_tree_diff(m, fresh)
+        d = first_tree_diff(m, fresh) or parent_link_error(m)
     except Exception as e:
         # (a tree unpickled from corrupted bytes can hold anything: even printing the exception may fail)
         try:
@@ -227,7 +227,7 @@ def oracle_repair(w):
         return ('reload-raises-' + sig, det)
     if loaded is None:
         return ('entry-not-repaired', 'after a fault-free parse the entry does not load from disk')
-    if first_tree_diff(loaded, fresh):
+    if first_tree_diff(loaded, fresh) or parent_link_error(loaded):
         return ('wrong-tree-from-repaired-entry', '')
     return None
 
